@@ -10,3 +10,6 @@ for p in "$@"; do
   timeout 1800 ./check "$p" 2>&1 | grep -E "VIOLATION|KNOWN-FINDING|PROOF BROKEN|failed|error" | cut -c1-400
   echo "exit=${PIPESTATUS[0]}"
 done
+# the generated constants file is shared: put back the one that describes /repo
+unset VERIF_REPO
+python3 tools/gen_constants.py >/dev/null 2>&1 || echo "WARNING: gen_constants on /repo failed"
